@@ -37,7 +37,7 @@ type c07In struct {
 	empty   bool
 }
 
-var c07Progs = []string{"nothing", "reply-result", "reply-error", "reply-emptyns", "other-id", "get-same-id", "set-same-id", "msg-then-reply", "reply-then-msg", "nested-iq", "presence-then-error-reply", "message-same-id-ns", "presence-same-id-ns", "reply-result", "reply-error"}
+var c07Progs = []string{"bogus-type-same-id", "nothing", "reply-result", "reply-error", "reply-emptyns", "other-id", "get-same-id", "set-same-id", "msg-then-reply", "reply-then-msg", "nested-iq", "presence-then-error-reply", "message-same-id-ns", "presence-same-id-ns", "reply-result", "reply-error"}
 
 func el(space, local string, attrs ...string) xml.StartElement {
 	st := xml.StartElement{Name: xml.Name{Space: space, Local: local}}
@@ -224,6 +224,9 @@ func runC07(rc *RC) {
 			parts, in.wrote = []xml.TokenReader{reply("result", in.id)}, true
 		case "other-id":
 			parts = []xml.TokenReader{reply("result", in.id+"-other")}
+		case "bogus-type-same-id":
+			// an iq with the request's id whose type is neither result nor error is no reply
+			parts = []xml.TokenReader{xmlstream.Wrap(h, el(ns, "iq", "type", []string{"chat", "Result", "results", "ERROR", "unavailable"}[ch.Int("handler", 5)], "id", in.id, "to", in.from))}
 		case "get-same-id":
 			parts = []xml.TokenReader{reply("get", in.id)}
 		case "set-same-id":
@@ -275,9 +278,16 @@ func runC07(rc *RC) {
 			if errAt < 0 {
 				errAt = in.idx
 			}
-			if ch.Chance("handler", 1, 2) {
+			switch ch.Int("handler", 4) {
+			case 0:
 				// what a handler that decodes its payload returns when the element ends early
 				return fmt.Errorf("harness: decoding payload: %w", io.EOF)
+			case 1:
+				// a stanza error as the handler's verdict (whether or not it has written a reply of its own): the
+				// documented consequence is that the stream ends with it
+				return stanza.Error{Type: stanza.Cancel, Condition: stanza.ItemNotFound}
+			case 2:
+				return fmt.Errorf("harness: %w", stanza.Error{Type: stanza.Modify, Condition: stanza.BadRequest})
 			}
 			return errBoom
 		}
@@ -312,7 +322,8 @@ func runC07(rc *RC) {
 			}
 			return program(ins[k], t, &iq)
 		})
-		handler = mux.New(e.NS, mux.IQ(stanza.GetIQ, xml.Name{Space: "urn:verif", Local: "q"}, iqh), mux.IQ(stanza.SetIQ, xml.Name{Space: "urn:verif", Local: "q"}, iqh))
+		handler = mux.New(e.NS, mux.IQ(stanza.GetIQ, xml.Name{Space: "urn:verif", Local: "q"}, iqh), mux.IQ(stanza.SetIQ, xml.Name{Space: "urn:verif", Local: "q"}, iqh),
+			mux.IQ(stanza.ResultIQ, xml.Name{Space: "urn:verif", Local: "q"}, iqh), mux.IQ(stanza.ErrorIQ, xml.Name{Space: "urn:verif", Local: "q"}, iqh))
 	default:
 		handler = mux.New(e.NS)
 	}
@@ -443,7 +454,7 @@ func runC07(rc *RC) {
 		} else {
 			rc.Evals["C07.c3"]++
 			for _, r := range rs {
-				if r.auto {
+				if r.auto || !r.handler {
 					rc.Failf("C07.c3", "auto-reply-to-non-request:"+in.kind+"/"+in.typ, "incoming %s triggered an automatic reply %+v", in.xml, r)
 				}
 			}
